@@ -45,7 +45,7 @@ func genC14Requests(r *rand.Rand, cc *checkCase, n int) []*c14Req {
 	// overlapping requests run at the same time
 	var pool []*Tup
 	pool = append(pool, cc.queries...)
-	for i := 0; i < 6 && i < len(cc.tuples); i++ {
+	for i := 0; i < 6 && i < len(cc.tuples) && cc.Variant != "fork-wide"; i++ {
 		pool = append(pool, cc.tuples[r.IntN(len(cc.tuples))])
 	}
 	for i := 0; i < n; i++ {
@@ -114,21 +114,39 @@ func (q *c14Req) key() string {
 
 // c14Exec executes the request and returns a normalised answer.
 func c14Exec(ctx context.Context, env *Env, read http.Handler, g *grpcClients, q *c14Req) string {
+	// REST requests are served on the caller's goroutine: a handler that ignores
+	// its context would keep the client forever. The request runs on its own
+	// goroutine; when it has not returned 5 s after its deadline the client moves
+	// on (the goroutine stays behind and shows in the profiles).
+	done := make(chan string, 1)
+	go func() { done <- c14ExecInner(ctx, env, read, g, q) }()
+	tm := time.NewTimer(c14ReqTimeout() + 5*time.Second)
+	defer tm.Stop()
+	select {
+	case a := <-done:
+		return a
+	case <-tm.C:
+		env.dirty = true
+		return "NO-RETURN: deadline passed 5 s ago and the request has not returned"
+	}
+}
+
+func c14ExecInner(ctx context.Context, env *Env, read http.Handler, g *grpcClients, q *c14Req) string {
 	switch q.Kind {
 	case "rest-check", "rest-expand", "rest-list":
-		st, body, pt := httpDoCtx(ctx, 30*time.Second, read, "GET", q.Target, "", nil)
+		st, body, pt := httpDoCtx(ctx, c14ReqTimeout(), read, "GET", q.Target, "", nil)
 		if pt != "" {
 			return "PANIC " + firstLine(pt)
 		}
 		return fmt.Sprintf("%d %s", st, body)
 	case "rest-check-post", "rest-batch":
-		st, body, pt := httpDoCtx(ctx, 30*time.Second, read, "POST", q.Target, q.Body, nil)
+		st, body, pt := httpDoCtx(ctx, c14ReqTimeout(), read, "POST", q.Target, q.Body, nil)
 		if pt != "" {
 			return "PANIC " + firstLine(pt)
 		}
 		return fmt.Sprintf("%d %s", st, body)
 	case "grpc-check":
-		c, cancel := context.WithTimeout(ctx, 30*time.Second)
+		c, cancel := context.WithTimeout(ctx, c14ReqTimeout())
 		defer cancel()
 		resp, err := g.Check.Check(c, &rts.CheckRequest{Tuple: q.Tuple.ToProto(), MaxDepth: q.Depth})
 		if err != nil {
@@ -136,7 +154,7 @@ func c14Exec(ctx context.Context, env *Env, read http.Handler, g *grpcClients, q
 		}
 		return fmt.Sprintf("allowed=%v", resp.Allowed)
 	case "grpc-expand":
-		c, cancel := context.WithTimeout(ctx, 30*time.Second)
+		c, cancel := context.WithTimeout(ctx, c14ReqTimeout())
 		defer cancel()
 		resp, err := g.Expand.Expand(c, &rts.ExpandRequest{Subject: rts.NewSubjectSet(q.Tuple.Namespace, q.Tuple.Object, q.Tuple.Relation), MaxDepth: q.Depth})
 		if err != nil {
@@ -144,7 +162,7 @@ func c14Exec(ctx context.Context, env *Env, read http.Handler, g *grpcClients, q
 		}
 		return resp.String()
 	case "grpc-list":
-		c, cancel := context.WithTimeout(ctx, 30*time.Second)
+		c, cancel := context.WithTimeout(ctx, c14ReqTimeout())
 		defer cancel()
 		resp, err := g.Read.ListRelationTuples(c, &rts.ListRelationTuplesRequest{RelationQuery: &rts.RelationQuery{Namespace: &q.Tuple.Namespace, Relation: &q.Tuple.Relation}, PageSize: 3, PageToken: q.Body})
 		if err != nil {
@@ -153,6 +171,53 @@ func c14Exec(ctx context.Context, env *Env, read http.Handler, g *grpcClients, q
 		return resp.String()
 	}
 	return "?"
+}
+
+// c14Hung: set once a request was shown (state based) never to return; later
+// requests of this child then get a short deadline, the child stops after a few cases.
+var c14Hung atomic.Int64
+
+func c14ReqTimeout() time.Duration {
+	if c14Hung.Load() > 0 {
+		return 3 * time.Second
+	}
+	return 30 * time.Second
+}
+
+// c14Parked lists goroutines that are blocked (channel / select / lock) inside
+// keto's request-serving packages: "state@innermost keto frame".
+func c14Parked() map[string]bool {
+	buf := make([]byte, 4<<20)
+	n := runtime.Stack(buf, true)
+	out := map[string]bool{}
+	for _, g := range strings.Split(string(buf[:n]), "\n\n") {
+		first := g
+		if i := strings.IndexByte(g, '\n'); i > 0 {
+			first = g[:i]
+		}
+		state := ""
+		for _, st := range []string{"chan send", "chan receive", "select", "semacquire", "sync.Mutex.Lock", "sync.WaitGroup.Wait", "sync.Cond.Wait"} {
+			if strings.Contains(first, st) {
+				state = st
+				break
+			}
+		}
+		if state == "" || strings.Contains(g, "/verifh.") && !strings.Contains(g, "github.com/ory/keto/internal/check") {
+			continue
+		}
+		for _, l := range strings.Split(g, "\n") {
+			l = strings.TrimSpace(l)
+			if strings.HasPrefix(l, "github.com/ory/keto/internal/check") || strings.HasPrefix(l, "github.com/ory/keto/internal/expand") || strings.HasPrefix(l, "github.com/ory/keto/internal/relationtuple") {
+				f := strings.TrimPrefix(l, "github.com/ory/keto/internal/")
+				if i := strings.LastIndex(f, "("); i > 0 {
+					f = f[:i]
+				}
+				out[state+"@"+f] = true
+				break
+			}
+		}
+	}
+	return out
 }
 
 func isTransientAnswer(a string) bool {
@@ -172,6 +237,11 @@ func TestC14(t *testing.T) {
 		if !p.mine(idx) {
 			continue
 		}
+		if c14Hung.Load() >= 2 {
+			// requests of this server process do not return any more (reported twice)
+			run.count("cases_skipped_after_requests_never_returned", 1)
+			continue
+		}
 		r := p.rng(idx, "case")
 		var cc *checkCase
 		switch idx % 3 {
@@ -185,6 +255,13 @@ func TestC14(t *testing.T) {
 		nReq := 50 + r.IntN(200)
 		if raceMode {
 			nReq = 40 + r.IntN(60)
+		}
+		if idx%8 == 5 {
+			cc = genForkWideCase(r)
+			nReq = 24 // every request of this case is a few thousand storage calls
+			if raceMode {
+				nReq = 8
+			}
 		}
 		reqs := genC14Requests(r, cc, nReq)
 		desc := map[string]any{"variant": cc.Variant, "config": cc.Cfg, "tuples": cc.Tuples, "requests": len(reqs), "race_mode": raceMode}
@@ -200,6 +277,59 @@ func TestC14(t *testing.T) {
 		}
 		run.end(idx, "", verdict)
 	}
+}
+
+// genForkWideCase: inside ONE check a wide expansion (a group with 50-90 nested
+// groups, each adding to the request's visited set) runs next to sibling
+// permissions built from && and ! (each operand forks the visited set): state
+// that belongs to one request but is shared between its own goroutines.
+func genForkWideCase(r *rand.Rand) *checkCase {
+	cc := &checkCase{Variant: "fork-wide"}
+	ut := []TypeRef{{NS: "User"}, {NS: "Team", Rel: "member"}}
+	nAllow := 12 + r.IntN(10)
+	acl := &NSDef{Name: "Acl", Rels: []*RelDef{{Name: "deny", Types: ut}}}
+	access := &Expr{Op: "and"}
+	for k := 0; k < nAllow; k++ {
+		rn := fmt.Sprintf("allow%d", k)
+		acl.Rels = append(acl.Rels, &RelDef{Name: rn, Types: ut})
+		access.Kids = append(access.Kids, &Expr{Op: "csr", Rel: rn})
+	}
+	access.Kids = append(access.Kids, &Expr{Op: "not", Kids: []*Expr{{Op: "csr", Rel: "deny"}}})
+	acl.Rels = append(acl.Rels, &RelDef{Name: "access", Perm: true, Rewrite: access})
+	cc.Cfg = &Cfg{NS: []*NSDef{{Name: "User"},
+		{Name: "Team", Rels: []*RelDef{{Name: "member", Types: ut}}},
+		{Name: "Folder", Rels: []*RelDef{{Name: "viewer", Types: []TypeRef{{NS: "User"}, {NS: "Team", Rel: "member"}, {NS: "Acl", Rel: "access"}}}}},
+		acl}}
+	folders, teams, nested, acls := 2, 4+r.IntN(3), 90+r.IntN(60), 4+r.IntN(4)
+	var ts []*Tup
+	for f := 0; f < folders; f++ {
+		fo := fmt.Sprintf("f%d", f)
+		for i := 0; i < teams; i++ {
+			tm := fmt.Sprintf("t%d_%d", f, i)
+			ts = append(ts, tupSet("Folder", fo, "viewer", "Team", tm, "member"))
+			for j := 0; j < nested; j++ {
+				ts = append(ts, tupSet("Team", tm, "member", "Team", fmt.Sprintf("n%d_%d_%d", f, i, j), "member"))
+			}
+		}
+		for i := 0; i < acls; i++ {
+			ao := fmt.Sprintf("d%d_%d", f, i)
+			ts = append(ts, tupSet("Folder", fo, "viewer", "Acl", ao, "access"))
+			ts = append(ts, tupID("Acl", ao, "deny", "mallory"))
+			for k := 0; k < nAllow; k++ {
+				ts = append(ts, tupID("Acl", ao, fmt.Sprintf("allow%d", k), "mallory"))
+			}
+		}
+	}
+	ts = append(ts, tupID("Team", "n0_0_0", "member", "alice"))
+	cc.tuples = shuffled(r, ts)
+	for f := 0; f < folders; f++ {
+		for _, u := range []string{"mallory", "mallory", "nobody", "alice"} {
+			cc.queries = append(cc.queries, tupID("Folder", fmt.Sprintf("f%d", f), "viewer", u))
+		}
+	}
+	cc.Tuples = tupStrings(cc.tuples[:minInt(len(cc.tuples), 60)])
+	cc.Queries = tupStrings(cc.queries)
+	return cc
 }
 
 func runC14Round(run *runner, idx int64, cc *checkCase, reqs []*c14Req, raceMode bool) string {
@@ -357,6 +487,7 @@ func runC14Round(run *runner, idx int64, cc *checkCase, reqs []*c14Req, raceMode
 		key, ans string
 	}
 	results := make(chan obs, len(reqs)+clients)
+	var noAnswer atomic.Int64
 	var wg sync.WaitGroup
 	work := make(chan *c14Req, len(reqs))
 	for _, q := range reqs {
@@ -368,7 +499,14 @@ func runC14Round(run *runner, idx int64, cc *checkCase, reqs []*c14Req, raceMode
 		go func() {
 			defer wg.Done()
 			for q := range work {
-				results <- obs{q.key(), c14Exec(caseCtx, env, read, g, q)}
+				if noAnswer.Load() >= 3 {
+					continue // requests stopped returning: the rest of the round adds nothing but waiting
+				}
+				a := c14Exec(caseCtx, env, read, g, q)
+				if strings.Contains(a, "deadline") && !isTransientAnswer(solo[q.key()]) {
+					noAnswer.Add(1)
+				}
+				results <- obs{q.key(), a}
 			}
 		}()
 	}
@@ -409,8 +547,12 @@ func runC14Round(run *runner, idx int64, cc *checkCase, reqs []*c14Req, raceMode
 	run.count("abandoned_neighbour_requests", abandoned.Load())
 	close(results)
 	reported := map[string]bool{}
+	var timedOut []string
 	for o := range results {
 		run.eval(1)
+		if (strings.Contains(o.ans, "deadline") || strings.Contains(o.ans, "context canceled")) && !isTransientAnswer(solo[o.key]) {
+			timedOut = append(timedOut, o.key)
+		}
 		if binding[o.key] {
 			// answers under a binding limit may legitimately vary with the schedule
 			run.count("requests_under_binding_limit_not_judged", 1)
@@ -444,6 +586,33 @@ func runC14Round(run *runner, idx int64, cc *checkCase, reqs []*c14Req, raceMode
 					Case:    map[string]any{"variant": cc.Variant, "config": cc.Cfg, "tuples": cc.Tuples}, Detail: distinct[o.key]})
 			}
 			verdict = "violation"
+		}
+	}
+	// A compared request (nobody cancelled it) that got no answer within its
+	// deadline although it answers at once when alone: state-based verdict - some
+	// goroutine is parked inside keto's request-serving code, in the same place in
+	// two profiles taken half a second apart, while nothing is being requested.
+	if len(timedOut) > 0 {
+		p1 := c14Parked()
+		time.Sleep(500 * time.Millisecond)
+		p2 := c14Parked()
+		var stuck []string
+		for k := range p1 {
+			if p2[k] {
+				stuck = append(stuck, k)
+			}
+		}
+		sort.Strings(stuck)
+		if len(stuck) > 0 {
+			c14Hung.Add(1)
+			q := distinct[timedOut[0]]
+			run.violate(violation{Index: idx, Sub: q.Kind, Sig: "C14:request-never-returned:" + q.Kind + ":" + stuck[0],
+				Summary: fmt.Sprintf("%d of the compared requests (e.g. a %s request that answers %q alone) got no answer within their deadline when issued next to other requests, and with no request in flight any more goroutines stay parked inside keto: %v", len(timedOut), q.Kind, clip(solo[timedOut[0]], 120), stuck),
+				Case:    map[string]any{"variant": cc.Variant, "config": cc.Cfg, "tuples": cc.Tuples}, Detail: map[string]any{"request": q, "parked": stuck}})
+			verdict = "violation"
+			env.dirty = true
+		} else {
+			run.count("requests_without_answer_within_deadline_no_parked_goroutine", int64(len(timedOut)))
 		}
 	}
 	run.count("perturbation_points_hit", pt.hits.Load())
